@@ -1437,6 +1437,94 @@ def switch_bbox_epsg_axis_order""", 'C01.a'),
             )
 
         sqlite_timeout""", 'C02.j', 'explicit sqlite directory shared by all grids'),
+    M('M-C14b-revert-D22', 'mapproxy/source/wms.py', """        if self.opacity is not None and self.opacity < 0.99:""",
+      """        if self.opacity is not None and (0.0 < self.opacity < 0.99):""", 'C14.b', 'revert of fix D22'),
+    M('M-C14a-revert-D23', 'mapproxy/image/merge.py', """                and (not layer_opts or layer_opts.opacity is None or layer_opts.opacity >= 1.0)
+""", "", 'C14.a', 'revert of fix D23'),
+    M('M-C20k-revert-D24-band', 'mapproxy/image/merge.py', """        cacheable = self.cacheable and all(src.cacheable for src in sources)
+        return ImageSource(result, size=size, image_opts=image_opts, cacheable=cacheable)""",
+      """        return ImageSource(result, size=size, image_opts=image_opts)""", 'C20.k', 'revert of fix D24 (band merge)'),
+    M('M-C20k-revert-D24-splitter', 'mapproxy/image/tile.py', """        return ImageSource(crop, size=tile_size, image_opts=self.image_opts, cacheable=self.cacheable)""",
+      """        return ImageSource(crop, size=tile_size, image_opts=self.image_opts)""", 'C20.k', 'revert of fix D24 (tile splitter)'),
+    M('M-C20k-band-any', 'mapproxy/image/merge.py', """        cacheable = self.cacheable and all(src.cacheable for src in sources)""",
+      """        cacheable = self.cacheable and any(src.cacheable for src in sources)""", 'C20.k', 'one cacheable source is enough'),
+    M('M-C18o-revert-D25-layer', 'mapproxy/layer.py', """            raise SourceError("unable to transform image: %s" % error_text_without_file_names(ex))""",
+      """            raise SourceError("unable to transform image: %s" % ex)""", 'C18.o', 'revert of fix D25 (layer)'),
+    M('M-C18o-revert-D25-wms', 'mapproxy/service/wms.py', """            raise RequestError('error while processing image file: %s' % error_text_without_file_names(ex),""",
+      """            raise RequestError('error while processing image file: %s' % ex,""", 'C18.o', 'revert of fix D25 (wms)'),
+    M('M-C18o-str-of-exception', 'mapproxy/layer.py', """            raise SourceError("unable to transform image: %s" % error_text_without_file_names(ex))""",
+      """            raise SourceError("unable to transform image: " + str(ex))""", 'C18.o', 'the text of the IOError through str()'),
+    M('M-C20m-revert-D26-v1', 'mapproxy/cache/compact.py', """                    t.source = ImageSource(BytesIO(data))
+                    if with_metadata:
+                        t.size = len(data)
+""", """                    t.source = ImageSource(BytesIO(data))
+""", 'C20.m', 'revert of fix D26 (v1 bundles)'),
+    M('M-C20m-revert-D26-v2', 'mapproxy/cache/compact.py', """        tile.source = ImageSource(BytesIO(data))
+        if with_metadata:
+            tile.size = len(data)
+""", """        tile.source = ImageSource(BytesIO(data))
+""", 'C20.m', 'revert of fix D26 (v2 bundles)'),
+    M('M-C20m-metadata-not-handed-on', 'mapproxy/cache/compact.py', """                return self._get_bundle(tile_coord).load_tiles(tiles, with_metadata, dimensions=dimensions)""",
+      """                return self._get_bundle(tile_coord).load_tiles(tiles, dimensions=dimensions)""", 'C20.m', 'with_metadata dropped on the way to the bundle'),
+    M('M-C12j-revert-D27', 'mapproxy/cache/geopackage.py', """    # the level files are created without timestamps (GPKG has none per tile)
+    supports_timestamp = False
+
+""", "", 'C12.j', 'revert of fix D27'),
+    M('M-C12j-mbtiles-level-without-timestamps', 'mapproxy/cache/mbtiles.py', """                    with_timestamps=True,""", """                    with_timestamps=False,""",
+      'C12.j', 'level databases without time stamps, class still claims them'),
+    M('M-C17k-revert-D28', 'mapproxy/srs.py', """            for preferred in self.target_proj[target]:
+                for avail in available_src:
+                    if avail == preferred:
+                        return avail""", """            for preferred in self.target_proj[target]:
+                if preferred in available_src:
+                    return preferred""", 'C17.k', 'revert of fix D28'),
+    M('M-C08i-revert-D29', 'mapproxy/cache/tile.py', """        if late_tiles:
+            self.cache.load_tiles(late_tiles, with_metadata, dimensions=dimensions)
+""", """        if late_tiles:
+            pass
+""", 'C08.i', 'revert of fix D29: late tiles are collected but not loaded'),
+    M('M-C08i-late-tiles-wrong-set', 'mapproxy/cache/tile.py', """            elif tile.is_missing():
+                # stored by another request after our batch load: cached, but not loaded yet
+                late_tiles.append(tile)""", """            else:
+                late_tiles.append(tile)""", 'C08.i', 'every cached tile is loaded a second time'),
+    M('M-C05p-revert-D30', 'mapproxy/cache/path.py', """    value = str(value).replace('%', '%25')
+    for sep, escaped in (('/', '%2F'), ('\\\\', '%5C')):
+        value = value.replace(sep, escaped)
+    return value""", """    value = str(value)
+    for sep in ('/', '\\\\', os.sep, os.altsep):
+        if sep:
+            value = value.replace(sep, '_')
+    return value""", 'C05.p', 'revert of fix D30'),
+    M('M-C05p-escape-char-not-first', 'mapproxy/cache/path.py', """    value = str(value).replace('%', '%25')
+    for sep, escaped in (('/', '%2F'), ('\\\\', '%5C')):
+        value = value.replace(sep, escaped)
+    return value""", """    value = str(value)
+    for sep, escaped in (('/', '%2F'), ('\\\\', '%5C'), ('%', '%25')):
+        value = value.replace(sep, escaped)
+    return value""", 'C05.p', 'the escape character is escaped last: %2F and / collide'),
+    M('M-C05d-revert-D31-mbtiles', 'mapproxy/cache/mbtiles.py', """        level_tiles = {}
+        for tile in tiles:
+            if tile.source or tile.coord is None:
+                continue
+            level_tiles.setdefault(tile.coord[2], []).append(tile)
+
+        loaded = True
+        for level in level_tiles:
+            if not self._get_level(level).load_tiles(level_tiles[level], with_metadata=with_metadata, dimensions=dimensions):
+                loaded = False
+        return loaded""", """        level = None
+        for tile in tiles:
+            if tile.source or tile.coord is None:
+                continue
+            level = tile.coord[2]
+            break
+
+        if level is None:
+            return True
+
+        return self._get_level(level).load_tiles(tiles, with_metadata=with_metadata, dimensions=dimensions)""", 'C05.d', 'revert of fix D31'),
+    M('M-C05d-group-by-column', 'mapproxy/cache/geopackage.py', """            level_tiles.setdefault(tile.coord[2], []).append(tile)""",
+      """            level_tiles.setdefault(tile.coord[0], []).append(tile)""", 'C05.d', 'tiles grouped by column instead of level'),
     E('E-C15h-swapped-compare', 'mapproxy/util/async_.py', """        if len(args) == 1:
             return self._single_call(func, args[0], use_result_objects)""", """        if 1 == len(args):
             return self._single_call(func, args[0], use_result_objects)""", 'operands swapped'),
